@@ -70,6 +70,7 @@ def spec_shapes(depth):
     yield js(fv(name("w")))
     yield js(">", fv(name("w")), ".", fv(name("p")))
     yield js(fv(name("w")), "d")
+    yield js(fv(ast.Subscript(value=ast.Dict(keys=[K(1)], values=[K(4)]), slice=K(1), ctx=ast.Load())))
     if depth > 0:
         yield js(fv(name("w"), ord("r"), js(">", fv(name("q")))))
 
@@ -86,6 +87,16 @@ def value_shapes(depth):
     yield ast.Compare(left=name("a"), ops=[ast.NotEq()], comparators=[name("b")])
     yield ast.Tuple(elts=[name("a"), name("b")], ctx=ast.Load())
     yield ast.Yield(value=None)
+    # values whose text STARTS with a brace without being a display themselves (the field must not open with `{{`)
+    d = ast.Dict(keys=[K(1)], values=[K("one")])
+    st = ast.Set(elts=[name("e")])
+    yield ast.Subscript(value=d, slice=name("x"), ctx=ast.Load())
+    yield ast.Call(func=ast.Attribute(value=d, attr="get", ctx=ast.Load()), args=[name("k")], keywords=[])
+    yield ast.BinOp(left=st, op=ast.BitOr(), right=name("s"))
+    yield ast.Compare(left=st, ops=[ast.LtE()], comparators=[name("s")])
+    yield ast.IfExp(test=name("c"), body=ast.Dict(keys=[], values=[]), orelse=name("e"))
+    yield ast.BoolOp(op=ast.Or(), values=[ast.DictComp(key=name("i"), value=name("i"), generators=[
+        ast.comprehension(target=ast.Name(id="i", ctx=ast.Store()), iter=name("r"), ifs=[], is_async=0)]), name("e")])
     if depth > 0:
         for inner in fstrings(depth - 1, limit=6):
             yield inner
